@@ -548,7 +548,7 @@ struct Gen {
 		p.knobs.reuse = rng.chance(1, 2);
 		if(T.serialization) p.knobs.chunk_r = std::vector<int>{0, 1, 1, 2, 3, 7, 64}[static_cast<std::size_t>(rng.below(7))];
 		maxext        = P.deep ? std::vector<int>{2, 3, 4, 4, 5, 5, 6, 6}[static_cast<std::size_t>(rng.below(8))] : std::vector<int>{1, 2, 2, 3, 3, 3, 4, 4, 3, 4, 5, 6}[static_cast<std::size_t>(rng.below(12))];
-		narena        = rng.range(1, P.max_arenas);
+		narena        = T.always_equal ? 1 : rng.range(1, P.max_arenas);
 		bool const fault_free = rng.below(100) < P.fault_free_pct;
 		pfault        = fault_free ? 0 : std::vector<int>{5, 15, 40}[static_cast<std::size_t>(rng.below(3))];
 		fkinds.clear();
